@@ -184,6 +184,9 @@ pub struct Compiler<'a, 'src> {
   /// The info on the current loop
   try_attributes: Option<TryAttributes>,
 
+  /// The scope depths of every try block currently being compiled in this function
+  try_scope_depths: Vec<usize>,
+
   /// The info on the current loop
   loop_attributes: Option<LoopAttributes>,
 
@@ -296,6 +299,7 @@ impl<'a, 'src: 'a> Compiler<'a, 'src> {
       class_attributes: None,
       loop_attributes: None,
       try_attributes: None,
+      try_scope_depths: vec![],
       gc: Rc::new(RefCell::new(gc)),
       enclosing: None,
       local_tables: collections::Vec::new_in(alloc),
@@ -367,6 +371,7 @@ impl<'a, 'src: 'a> Compiler<'a, 'src> {
       class_attributes: enclosing.class_attributes,
       loop_attributes: None,
       try_attributes: None,
+      try_scope_depths: vec![],
       gc: Rc::clone(&enclosing.gc),
       locals: collections::Vec::new_in(enclosing.alloc),
       module_table: None,
@@ -451,7 +456,7 @@ impl<'a, 'src: 'a> Compiler<'a, 'src> {
       _ => self.emit_byte(SymbolicByteCode::Nil, line),
     }
 
-    if self.try_attributes.is_some() {
+    for _ in 0..self.try_scope_depths.len() {
       self.emit_byte(SymbolicByteCode::PopHandler, line);
     }
 
@@ -1597,7 +1602,7 @@ impl<'a, 'src: 'a> Compiler<'a, 'src> {
       Some(v) => {
         self.expr(v);
 
-        if self.try_attributes.is_some() {
+        for _ in 0..self.try_scope_depths.len() {
           self.emit_byte(SymbolicByteCode::PopHandler, v.end());
         }
 
@@ -1618,10 +1623,13 @@ impl<'a, 'src: 'a> Compiler<'a, 'src> {
 
     // if our try catch is inside this loop
     // a break will jump outside of it so we need to pop the handler
-    if let Some(try_attributes) = self.try_attributes {
-      if try_attributes.scope_depth > loop_attributes.scope_depth {
-        self.emit_byte(SymbolicByteCode::PopHandler, continue_.start());
-      }
+    let handlers = self
+      .try_scope_depths
+      .iter()
+      .filter(|depth| **depth > loop_attributes.scope_depth)
+      .count();
+    for _ in 0..handlers {
+      self.emit_byte(SymbolicByteCode::PopHandler, continue_.start());
     }
 
     self.emit_byte(
@@ -1641,10 +1649,13 @@ impl<'a, 'src: 'a> Compiler<'a, 'src> {
 
     // if our try catch is inside this loop
     // a break will jump outside of it so we need to pop the handler
-    if let Some(try_attributes) = self.try_attributes {
-      if try_attributes.scope_depth > loop_attributes.scope_depth {
-        self.emit_byte(SymbolicByteCode::PopHandler, break_.start());
-      }
+    let handlers = self
+      .try_scope_depths
+      .iter()
+      .filter(|depth| **depth > loop_attributes.scope_depth)
+      .count();
+    for _ in 0..handlers {
+      self.emit_byte(SymbolicByteCode::PopHandler, break_.start());
     }
 
     self.emit_byte(SymbolicByteCode::Jump(loop_attributes.end), break_.start());
@@ -1657,6 +1668,7 @@ impl<'a, 'src: 'a> Compiler<'a, 'src> {
       scope_depth: self.scope_depth,
     };
     let enclosing_try = self.try_attributes.replace(try_attributes);
+    self.try_scope_depths.push(self.scope_depth);
 
     let catch_label = self.label_emitter.emit();
 
@@ -1682,6 +1694,7 @@ impl<'a, 'src: 'a> Compiler<'a, 'src> {
     let catch = try_.catches.first().expect("Expected catch block");
     self.emit_byte(SymbolicByteCode::Label(catch_label), catch.start());
     self.try_attributes = enclosing_try;
+    self.try_scope_depths.pop();
 
     for catch in &try_.catches {
       self.catch(catch, try_end_label);
